@@ -657,6 +657,29 @@ func checkC19Draw(c *Ctx, p *Prog) {
 		})
 		c.Check(ok && width != nil, "C19-R11", "(*wScreen).drawCell:covered-columns-emptied", p.pos(fn.Pos()), detail)
 	}
+	// the sixteen basic colours: what paletteColor answers for ColorBlack … ColorWhite, decided by
+	// constant evaluation (T18) whatever the table looks like (a map, an array indexed from ColorBlack, a
+	// switch); the reading of a map literal below remains for the case it cannot be carried out
+	if pc := p.Fn("tcell:paletteColor"); pc != nil && len(pc.Params) == 1 {
+		ce := &constEval{pk: p.pkg(""), globals: map[*ssa.Global]*cv{}}
+		base := pkgConst(p, "ColorBlack")
+		okEval := true
+		got := map[int]int64{}
+		for i := 0; i < 16 && okEval; i++ {
+			rets, err := ce.call(p, pc, map[*ssa.Parameter]*cv{pc.Params[0]: cvI(base + int64(i))})
+			if err != nil || len(rets) != 1 || rets[0].kind != cvInt {
+				okEval = false
+				break
+			}
+			got[i] = rets[0].i
+		}
+		if okEval {
+			for i := 0; i < 16; i++ {
+				c.Check(got[i] == xtermBasic16[i], "C19-R5", fmt.Sprintf("palette[%d]", i), p.pos(pc.Pos()), fmt.Sprintf("got %#06x want %#06x", got[i], xtermBasic16[i]))
+			}
+			return
+		}
+	}
 	// palette table
 	tp := p.pkg("")
 	obj := tp.Types.Scope().Lookup("palette")
